@@ -150,7 +150,7 @@ class Campaign:
                     self.conformance["known_region"] += 1    # retries of an object creation: the known-findings region
                 else:
                     self.conformance["diverged"].append({"instance": inst.name, "position": vd["position"], "of": vd["length"],
-                                                         "next_event": ne, "error": (vd.get("error") or "")[-200:]})
+                                                         "next_event": ne, "error": (vd.get("error") or "")[-200:], "job": g["job"]})
         if selftest:
             # the binding is real: a damaged copy of an accepted trace must be objected to
             clean = [t for i, t in enumerate(traces) if not any(f["trace"] == i for f in fails)]
@@ -274,13 +274,15 @@ def replay(pid, path):
 STRUCT = ["TypeOK", "PathContinuous"]
 
 
-def explore_plan(tier, inv, retries=False, removable=False, residue=False):
+def explore_plan(tier, inv, retries=False, removable=False, residue=False, lost=False):
     """exploration instances of the algorithm model for one property invariant"""
     quick = tier == "quick"
     plan = [dict(inst_name="tut1x2", pools_kind="shared", maxbounce=2, invariants=STRUCT + inv),
             dict(inst_name="tut1x2e", pools_kind="shared", maxbounce=1, invariants=STRUCT + inv)]
     if retries:
         plan.append(dict(inst_name="tut1x2", pools_kind="installed", maxbounce=1, maxtries=2, invariants=STRUCT + inv))
+    if lost:
+        plan.append(dict(inst_name="tut1x2", pools_kind="shared", maxbounce=1, invariants=STRUCT + inv, statuses=("PASS", "LOST")))
     if removable:
         plan.append(dict(inst_name="guix2", pools_kind="installed", maxbounce=0, invariants=STRUCT + inv, statuses=("PASS",), max_present=1 if quick else None))
     if not quick:
